@@ -4,7 +4,9 @@ import (
 	"bytes"
 	"encoding/json"
 	"fmt"
+	"io"
 	"reflect"
+	"runtime"
 	"strings"
 
 	"github.com/tormoder/fit"
@@ -43,7 +45,7 @@ type c18Msg struct {
 }
 
 // wire returns def+data for the message on `local` and the model's pre-expansion message.
-func (m c18Msg) wire(local byte, big bool, ft byte) ([]byte, reflect.Value) {
+func (m c18Msg) wire(local byte, big bool, ft byte, compressed bool) ([]byte, reflect.Value) {
 	var fds []fitmodel.FieldDef
 	var payload []byte
 	want := newWant(m.Mesg, ft)
@@ -70,6 +72,9 @@ func (m c18Msg) wire(local byte, big bool, ft byte) ([]byte, reflect.Value) {
 		payload = append(payload, wb...)
 	}
 	d := fitmodel.Def{Local: local, Big: big, Global: m.Mesg, Fields: fds}
+	if compressed {
+		return fitmodel.Concat(d.Bytes(), fitmodel.Compressed(local, 0, payload)), want
+	}
 	return fitmodel.Concat(d.Bytes(), fitmodel.Data(local, payload)), want
 }
 
@@ -190,6 +195,11 @@ var c18GlobalExact, c18GlobalLossy c18Accs
 
 // c18Case decodes a history of files (separately or chained) and compares every
 // message with the reference expansion. Returns violations (key -> message) and known matches.
+// c18SameLocal: every message of the case is written on local type 1 (each definition replaces the previous one) with a
+// compressed-timestamp header, so that whatever a decoder keeps per local type across a redefinition shows as a source
+// or destination the stream does not carry (the header's own effect, the Timestamp field, is C12's and is not compared).
+var c18SameLocal bool
+
 func c18Case(ft byte, big bool, files [][]c18Msg, chained bool) (viol map[string]string, known map[string]string, streams [][]byte) {
 	viol, known = map[string]string{}, map[string]string{}
 	type expMsg struct {
@@ -202,7 +212,11 @@ func c18Case(ft byte, big bool, files [][]c18Msg, chained bool) (viol map[string
 		var perFile, perFileLossy c18Accs
 		parts := fitmodel.FileIdRecords(0, ft)
 		for i, m := range msgs {
-			rec, want := m.wire(byte(1+i%15), big, ft)
+			local := byte(1 + i%15)
+			if c18SameLocal {
+				local = 1
+			}
+			rec, want := m.wire(local, big, ft, c18SameLocal)
 			parts = append(parts, rec)
 			if slotHosted(ft, m.Mesg) {
 				preds := c18Expand(want, &perFile, &perFileLossy, &c18GlobalExact, &c18GlobalLossy)
@@ -270,6 +284,9 @@ func c18Case(ft byte, big bool, files [][]c18Msg, chained bool) (viol map[string
 				g = got[i]
 			}
 			ignore := map[string]bool{}
+			if c18SameLocal {
+				ignore["Timestamp"] = true
+			}
 			for _, p := range ex.preds {
 				ignore[p.field] = true
 				obs := uint32(g.FieldByName(p.field).Uint())
@@ -316,7 +333,7 @@ func init() {
 	vx.Register(&vx.Prop{
 		ID:    "C18",
 		Level: "model_checking",
-		Rule: "reference expansion model (bit slices as the property words them; accumulators 12/8/16 bits, zero at the start of each file) against the real decoder: (A) every component source of record / lap / session / segment_lap / event x boundary bit patterns (incl. invalid) x every file type holding the message x both byte orders; (B) all words of length <=3 (quick) / <=4 (thorough) over 7 record variants carrying compressed_speed_distance, cycles and compressed_accumulated_power values that force 12/8/16-bit rollovers, also with a further file_id record between two records; (D) sources transmitted together with an explicit destination value, both field orders; (C) histories of 1-3 files decoded one after another in the same process and the same files chained in one stream. " +
+		Rule: "reference expansion model (bit slices as the property words them; accumulators 12/8/16 bits, zero at the start of each file) against the real decoder: (A) every component source of record / lap / session / segment_lap / event x boundary bit patterns (incl. invalid) x every file type holding the message x both byte orders; (B) all words of length <=3 (quick) / <=4 (thorough) over 9 record variants (7 carrying compressed_speed_distance, cycles and compressed_accumulated_power values that force 12/8/16-bit rollovers, one without any source, one with compressed_speed_distance only), also with a further file_id record between two records; (D) sources transmitted together with an explicit destination value, both field orders; (C) histories of 1-3 files decoded one after another in the same process and the same files chained in one stream. " +
 			"Mismatches are attributed to a listed finding only if the corresponding defect model (lost high nibble; mask-0 accumulator; package-level accumulator shadowed across the whole worker history) reproduces the decoded value exactly. states = distinct reference accumulator states; transitions = records; traces = decodes compared",
 		Assumptions: []string{"no scale/offset conversion between source and destination is demanded (the property speaks of bit slices)", "EnhancedSpeed is not demanded when Speed itself was derived from compressed_speed_distance (that is C07's K8)"},
 		Run:         runC18,
@@ -324,7 +341,9 @@ func init() {
 		Replay: func(raw json.RawMessage) (string, error) {
 			var r c18Replay
 			json.Unmarshal(raw, &r)
+			c18SameLocal = r.Mode == "same-local-compressed"
 			viol, known, _ := c18Case(r.FT, r.Big, r.Files, r.Mode == "chained")
+			c18SameLocal = false
 			if len(viol) > 0 {
 				return "", fmt.Errorf("%v", viol)
 			}
@@ -334,8 +353,20 @@ func init() {
 }
 
 func runC18(w *vx.W) {
+	// (the collector family decodes accumulating records outside the shadow bookkeeping, so it runs last)
+	defer c18GCBetweenReads(w)
 	states := map[uint64]struct{}{}
-	do := func(desc string, ft byte, big bool, files [][]c18Msg, chained bool, fam string) {
+	var do func(desc string, ft byte, big bool, files [][]c18Msg, chained bool, fam string)
+	do = func(desc string, ft byte, big bool, files [][]c18Msg, chained bool, fam string) {
+		if !chained && !c18SameLocal && len(files) == 1 && len(files[0]) >= 2 {
+			// the same case once more on one local type with compressed-timestamp headers (afterwards, so that the
+			// plain form is reported first)
+			defer func() {
+				c18SameLocal = true
+				do(desc+" [all on local type 1, compressed-timestamp headers]", ft, big, files, false, fam+"/same-local-compressed")
+				c18SameLocal = false
+			}()
+		}
 		viol, known, streams := c18Case(ft, big, files, chained)
 		w.Eval(1)
 		w.Trace(1)
@@ -349,6 +380,9 @@ func runC18(w *vx.W) {
 		mode := "separate"
 		if chained {
 			mode = "chained"
+		}
+		if c18SameLocal {
+			mode = "same-local-compressed"
 		}
 		var hx []string
 		for _, s := range streams {
@@ -505,14 +539,24 @@ func runC18(w *vx.W) {
 		d12 uint32
 		cyc uint64
 		cap uint64
+		// only: 0 = all three sources; 1 = no source at all (heart rate only); 2 = compressed_speed_distance only —
+		// a record that leaves a source out must not show what an earlier record carried
+		only int
 	}
-	variants := []rv{{0x001, 1, 1}, {0x0FF, 0x80, 0x8000}, {0x100, 0xFE, 0xFFFE}, {0xFFF, 0, 0}, {0x800, 0x7F, 0x1234}, {0x000, 2, 0x00FF}, {0xABC, 0xFF, 0xFFFF}}
+	variants := []rv{{0x001, 1, 1, 0}, {0x0FF, 0x80, 0x8000, 0}, {0x100, 0xFE, 0xFFFE, 0}, {0xFFF, 0, 0, 0}, {0x800, 0x7F, 0x1234, 0}, {0x000, 2, 0x00FF, 0}, {0xABC, 0xFF, 0xFFFF, 0},
+		{0, 0, 0, 1}, {0x234, 0, 0, 2}}
 	mk := func(v rv, i int) c18Msg {
 		// speed half = 0x123 + i, distance half = d12
 		sp := uint32(0x123+i) & 0xFFF
 		b0 := byte(sp)
 		b1 := byte(sp>>8) | byte(v.d12&0xF)<<4
 		b2 := byte(v.d12 >> 4)
+		switch v.only {
+		case 1:
+			return c18Msg{20, []c18Field{fU("HeartRate", 1, uint64(i+1))}}
+		case 2:
+			return c18Msg{20, []c18Field{fU("HeartRate", 1, uint64(i+1)), fB("CompressedSpeedDistance", b0, b1, b2)}}
+		}
 		return c18Msg{20, []c18Field{fB("CompressedSpeedDistance", b0, b1, b2), fU("Cycles", 1, v.cyc), fU("CompressedAccumulatedPower", 2, v.cap), fU("HeartRate", 1, uint64(i+1))}}
 	}
 	maxLen := 3
@@ -524,8 +568,12 @@ func runC18(w *vx.W) {
 		var acc c18Accs
 		for i, a := range word {
 			msgs[i] = mk(variants[a], i)
-			acc.dist.add(variants[a].d12, 0xFFF)
-			acc.cyc.add(uint32(variants[a].cyc), 0xFF)
+			if variants[a].only != 1 {
+				acc.dist.add(variants[a].d12, 0xFFF)
+			}
+			if variants[a].only == 0 {
+				acc.cyc.add(uint32(variants[a].cyc), 0xFF)
+			}
 			states[vx.Hash(fmt.Sprint(acc))] = struct{}{}
 		}
 		do(fmt.Sprintf("records %v", word), 4, len(word)%2 == 0, [][]c18Msg{msgs}, false, "B:record-words")
@@ -575,8 +623,72 @@ func runC18(w *vx.W) {
 	}
 	if w.Shard == 0 {
 		m := mk(variants[1], 0)
-		rec, _ := m.wire(1, false, 4)
+		rec, _ := m.wire(1, false, 4, false)
 		w.Sample(map[string]interface{}{"record_fields": m.Fields, "wire_hex": vx.Hex(rec), "reference": "Speed=0x123, Distance+=0x0FF (12-bit), TotalCycles+=0x80 (8-bit), AccumulatedPower+=0x8000 (16-bit)"})
 	}
 	_ = strings.Join
+}
+
+// gcReader hands out 16 bytes per Read and forces two garbage collections before each: state parked in a sync.Pool,
+// weak references or finalizers does not survive this.
+type gcReader struct {
+	b []byte
+	i int
+}
+
+func (r *gcReader) Read(p []byte) (int, error) {
+	runtime.GC()
+	runtime.GC()
+	if r.i >= len(r.b) {
+		return 0, io.EOF
+	}
+	n := len(p)
+	if n > 16 {
+		n = 16
+	}
+	n = copy(p[:n], r.b[r.i:])
+	r.i += n
+	return n, nil
+}
+
+// c18GCBetweenReads: the running sums of one file must not depend on when the collector runs. Compared are the
+// record-to-record distance deltas (they do not depend on what earlier decodes left in the accumulators).
+func c18GCBetweenReads(w *vx.W) {
+	if w.Shard != 0 {
+		return
+	}
+	recs := fitmodel.FileIdRecords(0, 4)
+	d := fitmodel.Def{Local: 1, Global: 20, Fields: []fitmodel.FieldDef{{Num: 8, Size: 3, Base: fitmodel.Byte}, {Num: 3, Size: 1, Base: fitmodel.Uint8}}}
+	recs = append(recs, d.Bytes())
+	raw := uint32(5)
+	for i := 0; i < 60; i++ {
+		raw = (raw + 37 + uint32(i%5)*11) & 0xFF // below 256: the listed nibble defect cannot interfere; wraps at 8 bits are not 12-bit rollovers
+		if i%9 == 8 {
+			raw = uint32(i) & 0x3F // a decrease: a 12-bit rollover for the accumulator
+		}
+		b1 := byte(raw&0xF) << 4
+		b2 := byte(raw >> 4)
+		recs = append(recs, fitmodel.Data(1, []byte{0x10, b1 | 0x01, b2, byte(60 + i)}))
+	}
+	stream := fitmodel.File(fitmodel.DefaultHeader, recs...)
+	deltas := func(f *fit.File) []int64 {
+		var out []int64
+		ms := messagesOf(f, 20)
+		for i := 1; i < len(ms); i++ {
+			out = append(out, int64(ms[i].FieldByName("Distance").Uint())-int64(ms[i-1].FieldByName("Distance").Uint()))
+		}
+		return out
+	}
+	quiet := safeDecode(bytes.NewReader(stream))
+	gc := safeDecode(&gcReader{b: stream})
+	w.Eval(2)
+	w.Trace(2)
+	w.Fam("gc-between-reads", 1)
+	if quiet.Err != nil || gc.Err != nil || gc.Panic != "" {
+		w.Violation("gc-between-reads", fmt.Sprintf("decode fails: quiet=%v with collections=%v %s", quiet.Err, gc.Err, gc.Panic), c18Replay{Desc: "gc-between-reads", Hex: []string{vx.Hex(stream)}})
+		return
+	}
+	if a, b := fmt.Sprint(deltas(quiet.File)), fmt.Sprint(deltas(gc.File)); a != b {
+		w.Violation("gc-between-reads", fmt.Sprintf("record-to-record distance deltas differ when the garbage collector runs between reads: %s vs undisturbed %s", trunc(b, 200), trunc(a, 200)), c18Replay{Desc: "gc-between-reads", Hex: []string{vx.Hex(stream)}})
+	}
 }
